@@ -1,5 +1,7 @@
 (* line protocol: fields separated by '|', each field = space separated code points.
-   input : cwd|dst|name1|name2...      output: ops joined by ';' then '#' then outcome *)
+   input : cwd|dst|name1|name2...      output: ops joined by ';' then '#' then outcome
+   input : MK|path|dir1|dir2...        output: directories created by os.makedirs(path) on the file
+                                       system holding dir1.. (makedirs_fs), joined by ';', '#', outcome *)
 open C15_model
 let rec pos_of_int i = if i = 1 then XH else if i land 1 = 1 then XI (pos_of_int (i lsr 1)) else XO (pos_of_int (i lsr 1))
 let n_of_int i = if i = 0 then N0 else Npos (pos_of_int i)
@@ -10,7 +12,12 @@ let field_of_str s = String.concat " " (List.map (fun x -> string_of_int (int_of
 let () =
   try while true do
     let line = input_line stdin in
-    match List.map str_of_field (String.split_on_char '|' line) with
+    match String.split_on_char '|' line with
+    | "MK" :: path :: dirs ->
+      let (cr, o) = makedirs_fs (List.map str_of_field dirs) (str_of_field path) in
+      let o_s = match o with MDone -> "DONE" | MFileExists -> "EXISTS" | MOSError -> "OSERROR" | MOutOfFuel -> "FUEL" in
+      print_string (String.concat ";" (List.map field_of_str cr) ^ "#" ^ o_s ^ "\n")
+    | raw -> match List.map str_of_field raw with
     | cwd :: dst :: names ->
       let (ops, o) = extractall cwd dst names in
       let ops_s = String.concat ";" (List.map (function Makedirs p -> "M " ^ field_of_str p | OpenWrite p -> "W " ^ field_of_str p) ops) in
